@@ -29,6 +29,12 @@ def _ready(direction_out, peer_idle, peer_dwa, node_idle, node_dwa):
     else:
         c, s = b.make_ready(p)
     drain(c)
+    if P.get("second"):
+        # a second established connection of the same peer (accepted while the first is registered): the peer's timers apply to it too
+        c2, s2 = b.accept("10.0.1.9")
+        b.inject(c2, B.cer(p.node_name, hbh=21, e2e=22))
+        drain(c2)
+        c = c2
     return b, n, p, c
 
 
@@ -55,8 +61,13 @@ def idle_step(out: bool, d: int, node_idle: int, peer_idle: int, node_dwa: int, 
         s2 = c.state
         obs = (ready0, [(r, cc) for (r, cc, *_x) in o1], s1, len(o1b), len(o2), s2, p.disconnect_reason, p.connection is None,
                c.ident in n.connections)
+        if P.get("second"):
+            obs = obs[:6] + (None, None) + obs[8:]         # the peer keeps its registered (first) connection
     except Exception as e:
         return hx.fail(inputs, "raised " + type(e).__name__)
+    if P.get("second"):
+        return hx.check(inputs, obs, _idle_exp(d, w, peer_idle if peer_idle else node_idle, peer_dwa if peer_dwa else node_dwa, True),
+                        "second connection of a peer: idle -> exactly one DWR; DWA timeout -> closed; per-peer timers first")
     eff_idle = peer_idle if peer_idle else node_idle
     eff_dwa = peer_dwa if peer_dwa else node_dwa
     if d > eff_idle:
@@ -71,6 +82,16 @@ def idle_step(out: bool, d: int, node_idle: int, peer_idle: int, node_dwa: int, 
         else:
             exp = (True, [], B.PEER_READY, 0, 0, B.PEER_READY, None, False, True)
     return hx.check(inputs, obs, exp, "idle -> exactly one DWR; silence beyond the DWA timeout -> closed with the watchdog reason; per-peer timers first")
+
+
+def _idle_exp(d, w, eff_idle, eff_dwa, second):
+    if d > eff_idle:
+        if w > eff_dwa:
+            return (True, [(True, 280)], B.PEER_READY_WAITING_DWA, 0, 0, B.PEER_CLOSED, None, None, False)
+        return (True, [(True, 280)], B.PEER_READY_WAITING_DWA, 0, 0, B.PEER_READY_WAITING_DWA, None, None, True)
+    if d + w > eff_idle:
+        return (True, [], B.PEER_READY, 0, 1, B.PEER_READY_WAITING_DWA, None, None, True)
+    return (True, [], B.PEER_READY, 0, 0, B.PEER_READY, None, None, True)
 
 
 def dwa_restores(out: bool, d: int, d2: int, node_idle: int) -> bool:
@@ -193,6 +214,7 @@ def specs(tier, seed, carve):
     q = tier == "quick"
     out = [
         dict(id="idle_step", fn="idle_step", params={}, timeout=240, bound="all d, w in [0,700]; node idle/dwa 1..60; peer idle/dwa 0..60; inbound and outbound"),
+        dict(id="idle_step/second_conn", fn="idle_step", params={"second": True}, timeout=240, bound="as idle_step, on a second established connection of the same peer (the first stays registered)"),
         dict(id="dwa_restores", fn="dwa_restores", params={}, timeout=120, bound="all d, d2 in [0,200], idle 1..60"),
         dict(id="dwr_answered", fn="dwr_answered", params={}, timeout=120, bound="ids from a 5-element pool (equal/distinct/boundary), all 32-bit Origin-State-Id values; both ready sub-states; inbound and outbound"),
         dict(id="stopping_silent", fn="stopping_silent", params={}, timeout=60, bound="all d in [0,700]"),
